@@ -159,6 +159,18 @@ func splitURI(text string) (scheme, authority, path, query string, hasQuery bool
 	return u.Scheme, authority, u.EscapedPath(), u.RawQuery, u.RawQuery != "" || u.ForceQuery, true
 }
 
+// asciiLower folds ASCII letters only and keeps every other byte (host names are compared
+// case-insensitively for ASCII; strings.ToLower would also merge bytes that are not UTF-8).
+func asciiLower(s string) string {
+	b := []byte(s)
+	for i, c := range b {
+		if 'A' <= c && c <= 'Z' {
+			b[i] = c + ('a' - 'A')
+		}
+	}
+	return string(b)
+}
+
 // NF computes the strict or loose normal form of an absolute http(s) URI given as text.
 func NF(u string, loose bool) (string, bool) {
 	scheme, authority, path, query, hasQuery, ok := splitURI(u)
@@ -167,7 +179,7 @@ func NF(u string, loose bool) (string, bool) {
 	}
 	scheme = strings.ToLower(scheme)
 	userinfo, host, port, _ := splitAuthority(authority)
-	host = strings.ToLower(normPct(host, false))
+	host = asciiLower(normPct(host, false))
 	if port == defaultPortOf(scheme) {
 		port = ""
 	}
@@ -263,7 +275,7 @@ func Origin(u string) (string, bool) {
 	if port == "" {
 		port = defaultPortOf(scheme)
 	}
-	return scheme + "://" + strings.ToLower(host) + ":" + port, true
+	return scheme + "://" + asciiLower(host) + ":" + port, true
 }
 
 // ---------------------------------------------------------------------------
@@ -311,13 +323,20 @@ func canonicalKey(s string) string {
 func squash(v string) string {
 	parts := strings.Split(v, ",")
 	for i, p := range parts {
-		p = strings.ToLower(p)
-		p = strings.Map(func(r rune) rune {
-			if r == ' ' || r == '\t' {
-				return -1
+		// byte-wise (ASCII case folding, SP / HTAB removed): strings.ToLower and strings.Map
+		// would turn every byte that is not valid UTF-8 into U+FFFD and so merge distinct values
+		bs := make([]byte, 0, len(p))
+		for i := 0; i < len(p); i++ {
+			c := p[i]
+			switch {
+			case c == ' ' || c == '\t':
+				continue
+			case c >= 'A' && c <= 'Z':
+				c += 'a' - 'A'
 			}
-			return r
-		}, p)
+			bs = append(bs, c)
+		}
+		p = string(bs)
 		p = strings.ReplaceAll(p, "x-gzip", "gzip")
 		p = strings.ReplaceAll(p, "x-compress", "compress")
 		parts[i] = p
